@@ -1,10 +1,10 @@
 package main
 
 import (
-	"os"
 	"fmt"
 	"go/token"
 	"go/types"
+	"os"
 	"sort"
 	"strings"
 
@@ -53,35 +53,35 @@ type closureInfo struct {
 }
 
 type Frame struct {
-	fn     *ssa.Function
-	vals   map[ssa.Value]string
-	laddr  map[ssa.Value]*LAddr
-	tuples map[ssa.Value][]string
-	depth  int
-	caller *Frame
-	entry  *State
-	lets   map[string]specVal
-	phiOv  map[*ssa.Phi]string
-	params []string // terms for parameters (in order, including receiver)
-	defers []*ssa.Defer
-	contract *FuncContract
-	retBlocks int
-	curInstr ssa.Instruction
+	fn           *ssa.Function
+	vals         map[ssa.Value]string
+	laddr        map[ssa.Value]*LAddr
+	tuples       map[ssa.Value][]string
+	depth        int
+	caller       *Frame
+	entry        *State
+	lets         map[string]specVal
+	phiOv        map[*ssa.Phi]string
+	params       []string // terms for parameters (in order, including receiver)
+	defers       []*ssa.Defer
+	contract     *FuncContract
+	retBlocks    int
+	curInstr     ssa.Instruction
 	namedResults []*ssa.Alloc
 }
 
 type Exec struct {
-	immCap map[*ssa.FreeVar]string // immutable captured variables of the closure under verification: their value
-	fwCount map[string]int // ordinals of field-write obligations
-	privSlice map[*ssa.Alloc]bool // cache of privateSliceCell
-	loopOwner *FuncContract // contract whose loop clauses cut the loops of the function being executed
-	elemIdx string // index term of the `fs[i]()` call whose call-site contracts are being checked
-	vc   *VC
-	p    *Prog
-	db   *ContractDB
-	top  *ssa.Function
-	topC *FuncContract
-	prop string // property filter for obligations ("" = all)
+	immCap    map[*ssa.FreeVar]string // immutable captured variables of the closure under verification: their value
+	fwCount   map[string]int          // ordinals of field-write obligations
+	privSlice map[*ssa.Alloc]bool     // cache of privateSliceCell
+	loopOwner *FuncContract           // contract whose loop clauses cut the loops of the function being executed
+	elemIdx   string                  // index term of the `fs[i]()` call whose call-site contracts are being checked
+	vc        *VC
+	p         *Prog
+	db        *ContractDB
+	top       *ssa.Function
+	topC      *FuncContract
+	prop      string // property filter for obligations ("" = all)
 
 	objCtr   int
 	closures map[string]*closureInfo
@@ -89,26 +89,26 @@ type Exec struct {
 	memVer   map[string]int
 	memType  map[string]types.Type
 
-	unsupported map[string]bool
-	inlineStack []*ssa.Function
-	maxDepth    int
-	callCount   map[string]int
-	oblNames    map[string]int
-	sweepOnly   bool // call-site sweep: no ensures of the top function
-	callsites   []string // description of callsite obligations found
-	mode        string
-	steps       int
-	overflowOn  bool
-	safetyOn    bool
-	inlinedFns  map[string]bool
+	unsupported   map[string]bool
+	inlineStack   []*ssa.Function
+	maxDepth      int
+	callCount     map[string]int
+	oblNames      map[string]int
+	sweepOnly     bool     // call-site sweep: no ensures of the top function
+	callsites     []string // description of callsite obligations found
+	mode          string
+	steps         int
+	overflowOn    bool
+	safetyOn      bool
+	inlinedFns    map[string]bool
 	usedContracts map[string]bool
-	usedExterns map[string]bool
-	sweepSet    map[*ssa.Function]bool
-	topName     string
-	liveObjs    []liveObj
-	owned       []ownedLoc
-	peelBody    map[*ssa.BasicBlock]bool
-	lemmaInline map[string]bool
+	usedExterns   map[string]bool
+	sweepSet      map[*ssa.Function]bool
+	topName       string
+	liveObjs      []liveObj
+	owned         []ownedLoc
+	peelBody      map[*ssa.BasicBlock]bool
+	lemmaInline   map[string]bool
 }
 
 // ownedLoc: a field of an object that only code handed the object may write (contract clause "owns").
